@@ -15,7 +15,7 @@ use crate::rng::Rng;
 use crate::scenario::*;
 
 pub fn generate(rng: &mut Rng, tier: Tier, stats: &mut GenStats) -> Scenario {
-    gen_stack_scenario(rng, tier, stats, "C16", 4)
+    gen_stack_scenario(rng, tier, stats, "C16", 4, 1)
 }
 
 /// Deterministic selection of permutations (the PRNG is never consulted while judging): all of
